@@ -74,6 +74,10 @@ def gen(tier, rng):
             for _ in range(6): az[rng.randrange(256)] = rng.choice([0, 0, 1, Q - 1, G, Q - 1 - G])
             out.append(Case("poly_decompose", cp, [az], ["in_domain", "poly", "zeros"]))
             out.append(Case("poly_use_hint", cp, [a, h], ["in_domain", "poly"]))
+            out.append(Case("poly_use_hint", cp, [a, [0] * 256], ["in_domain", "poly", "no-hint"]))       # hint-free polynomial: HighBits
+            out.append(Case("poly_use_hint_ip", cp, [a, [0] * 256], ["in_domain", "poly", "no-hint"]))
+            one = [0] * 256; one[rng.randrange(256)] = 1
+            out.append(Case("poly_use_hint", cp, [a, one], ["in_domain", "poly", "single-hint"]))
             out.append(Case("poly_use_hint_ip", cp, [a, h], ["in_domain", "poly"]))
             out.append(Case("poly_make_hint", cp, [a0, a1], ["in_domain", "poly"]))
     for lv in LEVELS:
@@ -94,6 +98,13 @@ def gen(tier, rng):
             out.append(Case("k_decompose", lv, [flat(vz), flat(big_dirty)], ["in_domain", "vec", "zeros"]))
             out.append(Case("k_power2round", lv, [flat(v), flat(dirty)], ["in_domain", "vec"]))
             out.append(Case("k_use_hint", lv, [flat(v), flat(h)], ["in_domain", "vec"]))
+            hs = [[0] * 256 for _ in range(p.K)]          # sparse hints with one hint-free component (what real signatures look like)
+            skip = rng.randrange(p.K)
+            for _ in range(p.omega):
+                i = rng.randrange(p.K)
+                if i != skip: hs[i][rng.randrange(256)] = 1
+            out.append(Case("k_use_hint", lv, [flat(v), flat(hs)], ["in_domain", "vec", "no-hint-component"]))
+            out.append(Case("k_use_hint", lv, [flat(v), [0] * (256 * p.K)], ["in_domain", "vec", "no-hint"]))
             out.append(Case("k_make_hint", lv, [flat(v0), flat(v1)], ["in_domain", "vec"]))
     # hint_roundtrip is evaluated by the oracle from make_hint/use_hint answers: expand into two cases
     exp = []
